@@ -8,6 +8,7 @@ package main
 import (
 	"bufio"
 	"bytes"
+	"crypto/tls"
 	"encoding/hex"
 	"fmt"
 	"io"
@@ -33,7 +34,7 @@ import (
 )
 
 const preamble = `From Coq Require Import String List NArith ZArith.
-From Fabio Require Import Lib.Outcome Lib.Bytes Lib.Pack Model.Logger Check.C20.
+From Fabio Require Import Lib.Outcome Lib.Bytes Lib.Pack Model.Logger Model.LoggerServe Check.C20.
 Import ListNotations.
 Local Open Scope N_scope.
 `
@@ -812,6 +813,12 @@ func main() {
 		}
 		addLog("utf8-format", formatOf(toks), toks, genEvent(r, true, true))
 	}
+	// 7a'. what ServeHTTP puts into the Event, field by field, against the request as received:
+	// route options host=dst / host=<name> / none, strip / prepend, target query; client headers
+	// X-Forwarded-Proto / Forwarded (either, both, neither; http/https/ws/wss and odd values),
+	// TLS and plain, websocket upgrade
+	serveEvents(run, r)
+
 	// 7c. end to end over real sockets: the upstream sends 0-2 informational responses before
 	// the final one; the logged status / size must be what the client received
 	oneXX(run, r)
@@ -1202,5 +1209,98 @@ func oneXX(run *vh.Run, r *rand.Rand) {
 		}
 		sample2 := map[string]interface{}{"fn": "HTTPProxy.ServeHTTP over loopback sockets", "format": format, "impl": human, "ref": refHuman, "upstream_1xx": nInfo}
 		run.Add("servehttp-loopback-1xx-line", vh.App("CLog", vh.HxS(format), coqEvent(rec.ev), impl, vh.N(c.w.n), ref), sample2)
+	}
+}
+
+func coqParts(u *url.URL) string {
+	return fmt.Sprintf("{| up_scheme := %s; up_host := %s; up_path := %s; up_query := %s |}", vh.HxS(u.Scheme), vh.HxS(u.Host), vh.HxS(u.Path), vh.HxS(u.RawQuery))
+}
+
+type nopLogger struct{ ev *logger.Event }
+
+func (l *nopLogger) Log(e *logger.Event) { l.ev = e }
+
+func serveEvents(run *vh.Run, r *rand.Rand) {
+	hostOpts := []string{"", "", "dst", "dst", "api.internal", "other.example:8080", "example.com"}
+	xfps := []string{"", "", "", "http", "https", "ws", "wss", "HTTPS", "gopher"}
+	fwds := []string{"", "", "", "for=1.2.3.4; proto=https", "proto=http;by=x", "for=1.2.3.4", "proto=", "for=x;proto=wss; by=y", "PROTO=https", "for=9.9.9.9;proto=https;proto=http", "by=z; proto=ws"}
+	for i := 0; i < run.Scale(400, 6000); i++ {
+		hostOpt := pick(r, hostOpts)
+		xfp, fwd := pick(r, xfps), pick(r, fwds)
+		switch i % 8 { // every combination class is hit deterministically as well
+		case 0:
+			hostOpt, xfp, fwd = "dst", "", ""
+		case 1:
+			hostOpt, xfp, fwd = "", "https", ""
+		case 2:
+			hostOpt, xfp, fwd = "", "", "for=1.2.3.4; proto=https"
+		case 3:
+			hostOpt, xfp, fwd = "api.internal", "https", "for=1.2.3.4; proto=http"
+		}
+		useTLS := r.Intn(3) == 0
+		ws := r.Intn(6) == 0
+		path := pick(r, []string{"/", "/foo", "/foo/bar", "/a%20b/c", "/svc/x"})
+		q := pick(r, []string{"", "", "a=1", "q=x+y&z=%2F"})
+		target := pick(r, []string{"http://127.0.0.1:5000/", "https://10.1.2.3:8443/", "http://backend.internal:80/?t=1", "http://[::1]:9000/?a=b&c=d"})
+		tu, err := url.Parse(target)
+		if err != nil {
+			run.Exclude("url.Parse rejects the target")
+			continue
+		}
+		if ws && tu.Scheme == "https" {
+			ws = false // the websocket handler would need a real *http.Transport to dial TLS
+		}
+		strip := pick(r, []string{"", "", "/foo", "/svc", "/a b"})
+		prepend := pick(r, []string{"", "", "/v2", "api"})
+		svc := pick(r, []string{"svc-a", "web", ""})
+		uri := "http://" + pick(r, []string{"example.com", "example.com:8080", "shop.example.org", "[2001:db8::1]:80"}) + path
+		if q != "" {
+			uri += "?" + q
+		}
+		req := httptest.NewRequest(pick(r, []string{"GET", "POST", "DELETE"}), uri, nil)
+		req.RemoteAddr = pick(r, []string{"10.0.0.7:51234", "[::1]:4000", "192.168.1.2:80"})
+		if xfp != "" {
+			req.Header.Set("X-Forwarded-Proto", xfp)
+		}
+		if fwd != "" {
+			req.Header.Set("Forwarded", fwd)
+		}
+		if ws {
+			req.Header.Set("Upgrade", pick(r, []string{"websocket", "Websocket"}))
+		} else if r.Intn(10) == 0 {
+			req.Header.Set("Upgrade", pick(r, []string{"WebSocket", "h2c"})) // not one of the two spellings
+		}
+		if useTLS {
+			req.TLS = &tls.ConnectionState{}
+		}
+		recvHost, recvPath, recvQuery, recvProto := req.Host, req.URL.Path, req.URL.RawQuery, req.Proto
+		remoteIP, _, _ := net.SplitHostPort(req.RemoteAddr)
+		rec := &nopLogger{}
+		p := &proxy.HTTPProxy{
+			Transport: stubRT{200, "ok"},
+			Lookup: func(*http.Request) *route.Target {
+				return &route.Target{Service: svc, URL: tu, Host: hostOpt, StripPath: strip, PrependPath: prepend}
+			},
+			Logger: rec,
+		}
+		rw := httptest.NewRecorder()
+		if panicked, pv := vh.Recover(func() { p.ServeHTTP(rw, req) }); panicked {
+			run.Violation(run.NextID(), fmt.Sprintf("ServeHTTP panicked: %v", pv), uri)
+			continue
+		}
+		ev := rec.ev
+		if ev == nil || ev.RequestURL == nil || ev.UpstreamURL == nil || ev.Request == nil {
+			run.Exclude("ServeHTTP did not log (request rejected before proxying)")
+			continue
+		}
+		inreq := fmt.Sprintf("{| ir_host := %s; ir_path := %s; ir_query := %s; ir_xfp := %s; ir_fwd := %s; ir_ws := %s; ir_tls := %s; ir_remote_ip := %s; ir_proto := %s |}",
+			vh.HxS(recvHost), vh.HxS(recvPath), vh.HxS(recvQuery), vh.HxS(xfp), vh.HxS(fwd), vh.Bool(ws), vh.Bool(useTLS), vh.HxS(remoteIP), vh.HxS(recvProto))
+		ropt := fmt.Sprintf("{| ro_scheme := %s; ro_host := %s; ro_query := %s; ro_hostopt := %s; ro_strip := %s; ro_prepend := %s; ro_service := %s |}",
+			vh.HxS(tu.Scheme), vh.HxS(tu.Host), vh.HxS(tu.RawQuery), vh.HxS(hostOpt), vh.HxS(strip), vh.HxS(prepend), vh.HxS(svc))
+		obs := fmt.Sprintf("{| sv_request_url := %s; sv_request_host := %s; sv_upstream_addr := %s; sv_upstream_service := %s; sv_upstream_url := %s |}",
+			coqParts(ev.RequestURL), vh.HxS(ev.Request.Host), vh.HxS(ev.UpstreamAddr), vh.HxS(ev.UpstreamService), coqParts(ev.UpstreamURL))
+		run.Add("servehttp-event-fields", vh.App("CServe", inreq, ropt, obs), map[string]interface{}{"fn": "HTTPProxy.ServeHTTP -> Event", "uri": uri, "tls": useTLS, "websocket": ws,
+			"x_forwarded_proto": xfp, "forwarded": fwd, "route_host_option": hostOpt, "strip": strip, "prepend": prepend, "target": target,
+			"event_request_url": ev.RequestURL.String(), "event_request_host": ev.Request.Host, "event_upstream_url": ev.UpstreamURL.String()})
 	}
 }
